@@ -13,8 +13,12 @@ VARIABLE c
 FullPool == {[Default EXCEPT !.extra = ex, !.pat = pt, !.flags = fl, !.gsel = g, !.osel = o, !.tshape = ts] :
            ex \in {{}, {2}, {2, 9999999}}, pt \in {1, 2, 3, 4}, fl \in {<<FALSE, 0>>, <<TRUE, 118>>, <<FALSE, 2>>},
            g \in {0, 2}, o \in {1, 2}, ts \in {"short", "colon"}}
+(* names beyond the 255-byte limit of term / gene names: disease names are unbounded, so the binary round trip of an *)
+(* ontology with a 300-byte OMIM / ORPHA name must still compare as unchanged (term and gene names: cut to 255)     *)
+LongNames == {[Default EXCEPT !.dshape = ds, !.gshape = gs, !.tshape = ts, !.osel = 2, !.gsel = 2] :
+                ds \in {"b300", "b254p2"}, gs \in {"short", "b255"}, ts \in {"short", "b255"}}
 
-Pool == IF Small THEN {q \in FullPool : q.gsel = 0 /\ q.tshape = "short"} ELSE FullPool
+Pool == (IF Small THEN {q \in FullPool : q.gsel = 0 /\ q.tshape = "short"} ELSE FullPool) \cup LongNames
 
 Init == c = [stage |-> "root"]
 Next ==
